@@ -484,12 +484,12 @@ Proof.
       apply (HPN1 h q1 gh B1 Cg). congruence. }
   destruct HGI3 as (HGI3 & HPN3).
   (* register the local inputs *)
-  pose proof (QS_nplayers _ _ _ _ HQS3) as Hnp3.
+  pose proof (QS_nplayers _ _ _ _ _ HQS3) as Hnp3.
   assert (Hall : Forall (fun h => 0 <= h /\ nth_error (ps_kinds p3) (Z.to_nat h) = Some KLocal /\
                                    exists pi, assoc_get (ps_pending p3) h = Some pi) (local_handles p3)).
   { apply Forall_forall. intros h Hin. pose proof Hin as Hin2. apply (local_handles_spec p3 h Hnp3) in Hin2.
     destruct Hin2 as (Hr & Hk). split; [lia|]. split; [exact Hk|]. apply Hpend3. exact Hin. }
-  destruct (register_go_progress (local_handles p3) w d p3 gs3 HQS3 Hcl3 (local_handles_nodup p3) Hall)
+  destruct (register_go_progress false (local_handles p3) w d p3 gs3 HQS3 Hcl3 (local_handles_nodup p3) Hall)
     as (p4 & gs4 & E4 & HQS4 & Hcl4 & Hrest4 & Hc4 & HL4 & Hdone4 & Hgrow4 & Hhist4).
   rewrite Hpe3, Hlh3 in Hhist4.
   assert (Hhist : hist_step d (ps_pending p) (local_handles p) gs gs4).
@@ -497,7 +497,7 @@ Proof.
     destruct (map_fst_nth gs gs3 h0 gh3 Hmap3 A3) as (gh & Ag & Efst). exists gh. split; [exact Ag|]. rewrite Efst. exact B3. }
   unfold register_local_inputs in E. rewrite E4 in E. cbn [res_bind] in E.
   destruct (send_ready_outgoing_ok p4 o2) as (p5 & o5 & E5 & O5). rewrite E5 in E. cbn [res_bind] in E.
-  pose proof (QS_out_only _ _ _ _ _ HQS4 O5) as HQS5.
+  pose proof (QS_out_only _ _ _ _ _ _ HQS4 O5) as HQS5.
   assert (Hs5 : ps_sync p5 = ps_sync p4) by (rewrite O5; reflexivity).
   assert (Ho5 : o_requests o5 = o_requests o1 /\ o_spec_sends o5 = o_spec_sends o ++ spec_sent p gs cf).
   { destruct (send_ready_outgoing_frame _ _ _ _ E5) as (_ & _ & X1 & X2). split; [congruence|]. rewrite X2, Hsent, Hspec_o1. reflexivity. }
@@ -534,7 +534,7 @@ Proof.
   split; [rewrite Ho5, Ho1, <- app_assoc; reflexivity|].
   rewrite with_pending_sync.
   split.
-  - apply (QS_resync w d (with_pending p5 []) gs4 _ gs4 (QS_no_pending _ _ _ _ HQS5)).
+  - apply (QS_resync _ w d (with_pending p5 []) gs4 _ gs4 (QS_no_pending _ _ _ _ _ HQS5)).
     + cbn. rewrite Hs5. reflexivity.
     + cbn [advance_frame with_current with_queues s_current s_last_confirmed s_queues]. fold L4. rewrite Hc4. exact HQ'.
     + reflexivity.
@@ -635,7 +635,7 @@ Proof.
   { destruct (Z.eqb_spec (s_current (ps_sync p)) 0) as [Ec|Ec]; cbn [andb].
     - unfold save_current_state. rewrite Ec. cbn [Z.ltb Z.compare res_bind].
       eexists; eexists. split; [reflexivity|]. split; [|split; [|split; [reflexivity|split; [reflexivity|split; [reflexivity|split; [reflexivity|split; [|split; [|repeat split]]]]]]]].
-      + apply QS_same_queues; [exact HQS|first [reflexivity|cbn; lia]..].
+      + apply (QS_same_queues false); [exact HQS|first [reflexivity|cbn; lia]..].
       + destruct HJI as [Jw Jmp Jfr Jcur Jroll]. constructor; cbn [with_sync ps_maxpred ps_sync ps_sparse s_current s_maxpred]; try assumption.
         * rewrite <- Ec. exact Jfr.
         * lia.
@@ -752,7 +752,7 @@ Proof.
   intros p gs g w d o HQS HJI HTI Hok.
   destruct o as [h v|pl f v|ep st|hs|h|h dd|]; cbn [op_ok] in Hok; try discriminate.
   - destruct (step_in_space predict p gs g w d (SLocal h v) HQS HJI Hok) as (s & gs' & g' & Es & HQ' & Ex & HJ').
-    cbn [sstep] in Es. destruct (local_progress w d p gs h v HQS) as (HQl & Hs & _).
+    cbn [sstep] in Es. destruct (local_progress _ w d p gs h v HQS) as (HQl & Hs & _).
     destruct (api_add_local_input p h v) as [p1 r1] eqn:E1. injection Es as <-. cbn [sr_state sr_out out0 o_requests exec fst] in *.
     injection Ex as <-. exists (mksr p1 out0 r1), gs, g. cbn [sstep sr_state sr_out out0 o_requests exec]. rewrite E1.
     split; [reflexivity|]. split; [exact HQl|]. split; [reflexivity|]. split; [exact HJ'|]. split; [eapply TI_sync; [exact Hs|exact HTI]|].
@@ -762,7 +762,7 @@ Proof.
   - apply andb_prop in Hok. destruct Hok as [Hok H5]. apply andb_prop in Hok. destruct Hok as [Hok H4].
     apply andb_prop in Hok. destruct Hok as [Hok H3]. apply andb_prop in Hok. destruct Hok as [H1 H2].
     destruct (nth_error (ps_kinds p) (Z.to_nat pl)) as [[|e|e]|] eqn:Ek; try discriminate.
-    destruct (remote_progress w d p gs pl f v e HQS ltac:(lia) Ek ltac:(lia) ltac:(lia))
+    destruct (remote_progress _ w d p gs pl f v e HQS ltac:(lia) Ek ltac:(lia) ltac:(lia))
       as (p' & gs' & E & HQ' & q & hist & low & q' & Eq & Eg & -> & Hqs' & F' & P' & Hc').
     cbn [sstep]. rewrite E. cbn [res_bind].
     exists (mksr p' out0 AOk), (updz gs (Z.to_nat pl) (hist ++ [v], low)), g. cbn [sr_state sr_out out0 o_requests exec].
@@ -874,7 +874,7 @@ Proof.
           destruct (Hop _ _ A1) as (gh & A0 & [B|(Hin & _)]).
           + rewrite A in A0. injection A0 as <-. cbn [fst] in B. exists low1. rewrite B. reflexivity.
           + exfalso. rewrite Z2Nat.id in Hin by lia.
-            apply (local_handles_spec p pl (QS_nplayers _ _ _ _ HQS)) in Hin. destruct Hin as (_ & Hin). congruence. }
+            apply (local_handles_spec p pl (QS_nplayers _ _ _ _ _ HQS)) in Hin. destruct Hin as (_ & Hin). congruence. }
       destruct Hstep as (low1 & A1).
       destruct (Hst' pl e _ low1 Hpl ltac:(rewrite Hk1; exact Hk) A1) as (low' & A').
       exists low'. rewrite A'. f_equal. f_equal. rewrite <- app_assoc. f_equal.
